@@ -135,10 +135,18 @@ def r1_fresh_copy_per_run(ctx):
                 ok = False
     ctx.check(ok, init.qual + "#processors", "the problem keeps deep copies of the caller's processor" if ok else "the fitting problem keeps the caller's processor itself", where=init, node=sts[0] if sts else init.node)
     bp = ctx.func("pyxel.calibration.fitting_datatree:build_processors")
-    app = [c for c in calls_in(bp.node) if isinstance(c.func, ast.Attribute) and c.func.attr == "append" and dotted(c.func.value) == "processors"]
+    # the returned list, whatever it is called: the accumulator that is returned
+    rets_ = [r for r in returns_of(bp) if r.value is not None]
+    accs = {dotted(r.value) for r in rets_ if isinstance(r.value, ast.Name)} or {"processors"}
+    app = [c for c in calls_in(bp.node) if isinstance(c.func, ast.Attribute) and c.func.attr == "append" and dotted(c.func.value) in accs]
     ok = bool(app)
     for c in app:
         a = c.args[0] if c.args else None
+        if isinstance(a, ast.Name):
+            # a named copy of the built processor (`e = new_processor; acc.append(e)`)
+            ds_ = [v_ for _s, v_ in local_defs(bp, a.id) if v_ is not None]
+            if len(ds_) == 1 and isinstance(ds_[0], ast.Name):
+                a = ds_[0]
         if not isinstance(a, ast.Name):
             ok = False
             continue
